@@ -93,12 +93,6 @@ class Aiwa(protocol_base.IrProtocolBase):
         except LeadOutError:
             raise
 
-        if self._last_code is not None:
-            if self._last_code == code:
-                return self._last_code
-
-            self._last_code.repeat_timer.stop()
-
         (
             device_checksum,
             sub_checksum,
@@ -111,6 +105,12 @@ class Aiwa(protocol_base.IrProtocolBase):
             func_checksum != code.f_checksum
         ):
             raise DecodeError('Checksum failed')
+
+        if self._last_code is not None:
+            if self._last_code == code:
+                return self._last_code
+
+            self._last_code.repeat_timer.stop()
 
         self._last_code = code
         return code
